@@ -7,7 +7,7 @@ VAL(line), free to raise ValueError.  The local dict ``records`` is modelled as 
 import z3
 
 from contracts.trusted import may_fail
-from pyvc.contract import Contract, Loop, Obj
+from pyvc.contract import Bytes, Const, Contract, Loop, Obj, Str
 from pyvc.values import SAbsIter, SBool, SInt, SMap, SObj, SStr, SStub
 
 A = "passlib/apache.py"
@@ -194,3 +194,52 @@ CONTRACTS.append(Contract(
     descr="any recorded and any current modification time",
 ))
 MUTANTS.append(("load_if_changed: an older file on disk is not re-read", A, "        if self._mtime and self._mtime == os.path.getmtime(self._path):", "        if self._mtime and self._mtime >= os.path.getmtime(self._path):", "refute", "load_if_changed"))
+
+
+# ---- _render_record: a record is rendered for BOTH forms a stored hash can take -- bytes (loaded / set_hash) and native
+#      text (check_password stores the upgraded hash as verify_and_update() returned it) -- so a later export cannot fail ----
+def _render_bytes_model(it, a, k):
+    from pyvc.values import SStr
+    parts = []
+    for v in a[1:]:
+        v = it.resolve(v)
+        parts.append(it.to_z3(v))
+    fmt = it.static_str(a[0]) if hasattr(it, "static_str") else None
+    if fmt is None:
+        raw = it.resolve(a[0])
+        fmt = raw if isinstance(raw, str) else z3.simplify(it.to_z3(raw)).as_string()
+    pieces = fmt.split("%s")
+    assert len(pieces) == len(parts) + 1
+    out = [z3.StringVal(pieces[0])]
+    for p_, piece in zip(parts, pieces[1:]):
+        out += [p_, z3.StringVal(piece)]
+    return SStr(z3.Concat(*out), "bytes")
+
+
+def _rr_replay(cls, args, want):
+    from pyvc.replay import py_replay
+    return py_replay(f"from passlib.apache import {cls}", f"r = {cls}()._render_record({args})", f"exc is None and r == {want}", {"hash": "$apr1$abc$defghijk"})
+
+
+for _kind, _P in (("bytes hash", Bytes()), ("text hash", Str())):
+    CONTRACTS.append(Contract(
+        f"HtpasswdFile._render_record[{_kind}]", f"{A}::HtpasswdFile._render_record",
+        params={"self": Obj(), "user": Bytes(), "hash": _P},
+        globals={"render_bytes": SStub(_render_bytes_model, "render_bytes", trusted="utils.render_bytes: %s-substitution with bytes decoded / text encoded as latin-1")},
+        requires=[lambda it, env: it.all_codes_below(it.to_z3(env.lookup("hash")), 128)],
+        ensures=[("the record line is user:hash followed by a newline, whichever of the two forms the stored hash has",
+                  lambda it, env: it.to_z3(env.lookup("result")) == z3.Concat(it.to_z3(env.lookup("user")), z3.StringVal(":"), it.to_z3(env.lookup("hash")), z3.StringVal("\n")))],
+        replay=_rr_replay("HtpasswdFile", "b'user', V['hash']" if _kind == "text hash" else "b'user', V['hash'].encode('ascii')", "b'user:' + V['hash'].encode('ascii') + b'\\n'"),
+        descr="any user bytes, any ASCII hash",
+    ))
+    CONTRACTS.append(Contract(
+        f"HtdigestFile._render_record[{_kind}]", f"{A}::HtdigestFile._render_record",
+        params={"self": Obj(), "key": Const(None), "hash": _P},
+        setup=lambda it, args: args.__setitem__("key", (SStr(z3.String("user"), "bytes"), SStr(z3.String("realm"), "bytes"))) or {"user": SStr(z3.String("user"), "bytes"), "realm": SStr(z3.String("realm"), "bytes")},
+        globals={"render_bytes": SStub(_render_bytes_model, "render_bytes", trusted="utils.render_bytes: %s-substitution with bytes decoded / text encoded as latin-1")},
+        requires=[lambda it, env: it.all_codes_below(it.to_z3(env.lookup("hash")), 128)],
+        ensures=[("the record line is user:realm:hash followed by a newline, whichever of the two forms the stored hash has",
+                  lambda it, env: it.to_z3(env.lookup("result")) == z3.Concat(z3.String("user"), z3.StringVal(":"), z3.String("realm"), z3.StringVal(":"), it.to_z3(env.lookup("hash")), z3.StringVal("\n")))],
+        replay=_rr_replay("HtdigestFile", "(b'user', b'realm'), V['hash']" if _kind == "text hash" else "(b'user', b'realm'), V['hash'].encode('ascii')", "b'user:realm:' + V['hash'].encode('ascii') + b'\\n'"),
+        descr="any user / realm bytes, any ASCII hash",
+    ))
